@@ -1,7 +1,6 @@
 package sim
 
 import (
-	"fmt"
 	"testing"
 	"testing/synctest"
 	"time"
@@ -179,64 +178,34 @@ func joinScenario(r *Run, mode string) {
 		return nil
 	}
 
-	var runErr error
-	finished := false
-	deadlock := false
 	var lastSide byte
 	schedule := make([]byte, 0, 64)
-	bubble(r, func() {
-		done := make(chan struct{})
-		go func() {
-			defer close(done)
-			defer func() {
-				if p := recover(); p != nil {
-					runErr = fmt.Errorf("panic in join: %v", p)
-				}
-			}()
-			runErr = node.Run(execution.ExecutionContext{Context: bubbleCtx()}, produce, metaSend)
-		}()
-		for step := 0; step < 10000; step++ {
-			synctest.Wait()
-			select {
-			case <-done:
-				finished = true
-			default:
+	choose := func(en []string) int {
+		// en is sorted: "L:..." before "R:..."
+		pick := 0
+		if lastSide != 0 && t.Draw(100) < sticky {
+			if en[1][0] == lastSide {
+				pick = 1
 			}
-			if finished {
-				break
-			}
-			en := ctl.Enabled()
-			if len(en) == 0 {
-				deadlock = true
-				break
-			}
-			pick := 0
-			if len(en) > 1 {
-				// en is sorted: "L:..." before "R:..."
-				if lastSide != 0 && t.Draw(100) < sticky {
-					if en[1][0] == lastSide {
-						pick = 1
-					}
-				} else {
-					pick = t.Draw(len(en))
-				}
-			}
-			key := en[pick]
-			lastSide = key[0]
-			schedule = append(schedule, key[0])
-			if key[len(key)-1] == 's' { // eos
-				schedule = append(schedule, '$')
-				otherOpen := (key[0] == 'L' && !closedR) || (key[0] == 'R' && !closedL)
-				if otherOpen {
-					r.Probe("closed_first_" + string(key[0]))
-				}
-			}
-			r.Log("release %s", key)
-			ctl.Release(key)
+		} else {
+			pick = t.Draw(len(en))
 		}
-		ctl.Abort()
-		synctest.Wait()
-	})
+		return pick
+	}
+	ctlHook := func(key string) {
+		lastSide = key[0]
+		schedule = append(schedule, key[0])
+		if key[len(key)-1] == 's' { // eos
+			schedule = append(schedule, '$')
+			otherOpen := (key[0] == 'L' && !closedR) || (key[0] == 'R' && !closedL)
+			if otherOpen {
+				r.Probe("closed_first_" + string(key[0]))
+			}
+		}
+	}
+	ctl.OnRelease = ctlHook
+	oc := RunGated(r, node, ctl, produce, metaSend, choose, 10000)
+	runErr, finished, deadlock := oc.Err, oc.Finished, oc.Deadlock
 	r.Sched(string(schedule))
 	r.NonTrivial(len(scriptL)+len(scriptR) >= 2 && len(schedule) >= 3)
 	r.AddSimTime(int64(time.Duration(len(scriptL)+len(scriptR)) * time.Second))
